@@ -69,15 +69,15 @@ Definition good_C11 (things out : list ritem) : bool :=
   perm_ok things out && (if acyclic things then topo_ok out else true).
 
 (* ---- which references the collectors of the unchanged tree can see ---- *)
-(* identifiers get_dependencies_from_type looks up: Simple / Generic ids under Vec, Option, HashMap
-   nesting, and the outermost id of each argument of a Generic whose own id is a known item *)
+(* identifiers get_dependencies_from_type looks up: Simple / Generic ids under Vec, array, slice,
+   Option, HashMap nesting, and the outermost id of each argument of a Generic whose own id is a known item *)
 Fixpoint visible_idents (known : str -> bool) (t : rtype) : list str :=
   match t with
   | RSimple id => [id]
   | RGeneric id ps => id :: (if known id then map rtype_id ps else [])
-  | RVec x | ROption x => visible_idents known x
+  | RVec x | ROption x | RArray x _ | RSlice x => visible_idents known x
   | RHashMap k v => visible_idents known k ++ visible_idents known v
-  | RArray _ _ | RSlice _ | RPrim _ => []
+  | RPrim _ => []
   end.
 
 Definition visible_types (it : ritem) : list rtype :=
@@ -118,7 +118,6 @@ Definition edge_class (a b : ritem) : option string :=
     then cls "C11-variant-fields" else cls "C11-enum-self-edge"
   | _ =>
     if negb (mem_str (original (item_id b)) (mentions a)) then cls "C11-renamed"
-    else if existsb has_array_slice (item_types a) then cls "C11-array-slice"
     else cls "C11-generic-arg-depth"
   end.
 
